@@ -24,6 +24,9 @@ theorem isEmptyValue_kinds : ∀ k ∈ ["Array", "Map", "Slice", "String", "Bool
 /-! ### C08: what `Reset` re-installs after `Init`, what the deferred clean-up clears, empty input is rejected -/
 theorem reset_restores_pool_mode : resetModeFlags = poolNewModeFlags := by decide
 theorem reset_installs_handler : "s.sx.Error" ∈ resetAssignsAfterInit ∧ "s.sx.Mode" ∈ resetAssignsAfterInit := by decide
+/-- the pool protocol of `Mp.ConcSys`: Get first, Put as the last deferred statement, no other use of the pool -/
+theorem pool_protocol : poolGetFirst = true ∧ poolPutLastInDefer = true ∧
+    poolCallSites = ["ParseReadSeeker:Get", "ParseReadSeeker:Put"] := by decide
 theorem deferred_clean_up : "s.err" ∈ deferredClears ∧ "s.src" ∈ deferredClears := by decide
 theorem parse_rejects_empty : parseRejectsEmpty = true := by decide
 theorem invalid_runes : invalidRunes = [39, 34, 40, 41, 91, 93, 123, 125, 64, 36, 38, 46, 44, 61, 62, 60, 124, 33, 59, 47, 42] := by decide
@@ -90,6 +93,7 @@ theorem returnsString_published : ∀ n ∈ Mp.returnsString, ∃ fd ∈ funcTab
 #print axioms logic_table
 #print axioms logic_keywords
 #print axioms do_methods_do_not_write_receiver
+#print axioms pool_protocol
 #print axioms caches_guarded
 #print axioms cache_skeleton
 #print axioms cache_values_are_functions_of_their_keys
